@@ -283,3 +283,5 @@ Proof.
   repeat split; try (vm_compute; reflexivity).
   apply str_nodupb_NoDup. vm_compute. reflexivity.
 Qed.
+Print Assumptions ARGP_leaf_pipeline_nonvacuous.
+Print Assumptions ARGP_nonvacuous.
